@@ -20,7 +20,9 @@ DEFAULTS = ['0', '1', '-9.81', '1e-9', '"a;b"', '"x,y"', '"hello world"', 'gtsam
             'nullptr', 'true', 'ns::Kind::A', 'x[3]', '"(unbalanced in quotes"', 'A{B(1), C<2>()}', '-1',
             'std::make_shared<Q>(1, "s")', 'sizeof(int)', '"}"', "'{'", '1 + 2', 'a ? b : c', 'M<N<3>>()',
             # verbatim means verbatim: runs of blanks, tabs and line breaks inside the expression
-            '"two  spaces   here"', 'f(1,   2)', 'gtsam::Pose3(1,\n      2)', '"tab\there"', 'a  +\tb', '{ 1,\n2 }']
+            '"two  spaces   here"', 'f(1,   2)', 'gtsam::Pose3(1,\n      2)', '"tab\there"', 'a  +\tb', '{ 1,\n2 }',
+            # comment openers inside literals are text, and so is a parameter's spelling
+            '"http://gtsam.org/doc"', '"/* not a comment */"', "'/'", '"a // b"', '1 / 2', '"T and U"', "'T'"]
 HEADERS = ['a.h', 'gtsam/geometry/Pose3.h', 'x/y z.hpp', 'vector', 'my-lib/file_1.h']
 PARAM_NAMES = ['T', 'U', 'POSE', 'CALIBRATION', 'N', 'Val', 'TT', 'K', 'D', 'V']
 CONCRETE_BASIC = ['double', 'int', 'size_t', 'bool', 'float', 'char', 'unsigned char', 'string']
@@ -77,6 +79,9 @@ class WildGen:
             special_names=0.0,         # python keywords / ipython names / print / serialize as member names
             qualified_param_name_deep=False,   # D49: ns::T inside template arguments, T a parameter in scope
             serialize_p=0.0,           # probability that a class declares the serialize() / serializable() marker
+            ns_namesakes=0.0,          # probability that a namespace takes the name of a namespace with another parent
+            typedef_repeats_listed=0.25,   # probability that a typedef's arguments are a combination of the template's lists
+            inst_namesakes=0.0,        # probability that an instantiation list holds two arguments of one simple name
             enum_namesakes=0.0,        # probability that an enum takes the name of an enum of another scope
             overloads=0.0,             # probability that a method / static method reuses an earlier name of its class
                                        # (incl. the const / non-const pair of one signature)
@@ -88,6 +93,7 @@ class WildGen:
         self.scoped_ok = {}      # param -> may be used as T::X (its concrete types are not templated)
         self.in_class = False
         self.ns_path = ()
+        self._ns_children = {}   # parent path -> names of the namespaces generated below it
         self._enum_names = []    # (scope key, name) of the enums generated so far
         self._funcs = [[]]       # names of the free functions generated so far, per open namespace
 
@@ -143,6 +149,8 @@ class WildGen:
                     inner = r.choice([p + 'ype', 'x' + p, p + p, p.lower() + p])
                 elif p in inner:
                     inner = 'Q'
+                if depth > 0 and inner in self.scope_params and not f['qualified_param_name_deep']:
+                    inner = 'Q'      # T::TT inside template arguments with TT another parameter in scope: D49
                 extra = (self.r.choice(['Sub', 'detail']),) if r.random() < 0.2 else ()
                 return S.T(inner, (p,) + extra, (), const, marker)
             if depth <= f['param_depth']:
@@ -232,6 +240,13 @@ class WildGen:
             out.append(t)
             if len(out) == n:
                 break
+        if out and self.r.random() < self.f['inst_namesakes']:
+            # two arguments that differ only in their namespace (geo::Pose, nav::Pose): distinct instantiations
+            # that get the same generated name
+            base = [t for t in out if not t.args and t.name not in CONCRETE_BASIC and not t.name[0].isdigit()]
+            if base:
+                t = self.r.choice(base)
+                out.append(S.T(t.name, (self.ident(),) + tuple(t.ns[:1])))
         return tuple(out) or (S.T('double'),)
 
     def template(self, with_lists=None, maxp=None, plain_insts=False):
@@ -416,6 +431,14 @@ class WildGen:
             return S.Include(r.choice(HEADERS))
         name = self.ident()
         saved_path = self.ns_path
+        here = self._ns_children.setdefault(tuple(saved_path), set())
+        if r.random() < self.f['ns_namesakes']:
+            # a namespace named like one that has another parent (a::detail, b::detail): different namespaces
+            cand = sorted({n for par, names in self._ns_children.items() if par != tuple(saved_path) for n in names}
+                          - here - set(saved_path))
+            if cand:
+                name = r.choice(cand)
+        here.add(name)
         self.ns_path = tuple(saved_path) + (name,)
         self._funcs.append([])
         items = tuple(self.item(depth + 1) for _ in range(r.randint(0, self.k.items)))
@@ -507,6 +530,10 @@ def add_typedefs(mod, g, flagged_scopes=False):
             if cands and r.random() < 0.8:
                 kind, tpath, tmpl = r.choice(cands)
                 targs = tuple(_concrete_arg(g, plain=_plain_needed(g, kind, tmpl, p.name)) for p in tmpl.template)
+                if kind == 'class' and all(p.insts for p in tmpl.template) and r.random() < g.f['typedef_repeats_listed']:
+                    # a typedef may also name a combination that the instantiation lists produce anyway: it still
+                    # yields its own, additional instantiation carrying the typedef's name
+                    targs = tuple(r.choice(p.insts) for p in tmpl.template)
                 ty = S.T(tmpl.name, tpath, targs)
                 name = g.ident(True) if kind == 'class' else g.ident(r.random() < 0.5)
                 td = S.Typedef(ty, name)
